@@ -1,6 +1,44 @@
 use crate::impls::inner_types::*;
 use crate::traits::Pairing;
-use serde::{Deserializer, Serializer};
+use serde::{Deserialize, Deserializer, Serializer};
+
+/// Read a human readable hex string of exactly `2 * out.len()` digits.
+/// Malformed text is an error here, before the curve backend (which may assume
+/// well-formed hex) ever sees it.
+fn hex_into<'de, D: Deserializer<'de>>(deserializer: D, out: &mut [u8]) -> Result<(), D::Error> {
+    let text = String::deserialize(deserializer)?;
+    hex::decode_to_slice(text.as_bytes(), out).map_err(serde::de::Error::custom)
+}
+
+/// Deserialize a scalar, parsing the human readable form defensively
+pub(crate) fn deserialize_scalar_checked<'de, D: Deserializer<'de>>(
+    deserializer: D,
+) -> Result<Scalar, D::Error> {
+    if deserializer.is_human_readable() {
+        let mut bytes = [0u8; 32];
+        hex_into(deserializer, &mut bytes)?;
+        Option::<Scalar>::from(Scalar::from_be_bytes(&bytes))
+            .ok_or_else(|| serde::de::Error::custom("invalid scalar"))
+    } else {
+        <Scalar as Deserialize<'de>>::deserialize(deserializer)
+    }
+}
+
+/// Deserialize a group element, parsing the human readable form defensively
+pub(crate) fn deserialize_point_checked<'de, D, G>(deserializer: D) -> Result<G, D::Error>
+where
+    D: Deserializer<'de>,
+    G: GroupEncoding + Deserialize<'de>,
+{
+    if deserializer.is_human_readable() {
+        let mut repr = G::Repr::default();
+        hex_into(deserializer, repr.as_mut())?;
+        Option::<G>::from(G::from_bytes(&repr))
+            .ok_or_else(|| serde::de::Error::custom("invalid point"))
+    } else {
+        G::deserialize(deserializer)
+    }
+}
 
 /// Serialization trait for inner types
 pub trait BlsSerde: Pairing {
